@@ -19,10 +19,10 @@ import (
 // callback is the real "Add during the gap").
 
 type winCfg struct {
-	kind, mode            string
+	kind, mode             string
 	size, slide, ooo, late int64
-	timeout               int64
-	keys                  []string
+	timeout                int64
+	keys                   []string
 }
 
 func cfgInt(c Case, key string, def int64) int64 {
